@@ -37,7 +37,7 @@ def main():
         seed = int(os.environ.get('VERIF_SEED', '0') or 0)
         for idx in [int(x) for x in a.exec_indices.split(',') if x]:
             res = kernel.execute_guarded(engine, kernel.make_scenario(engine, a.prop, a.tier, seed, idx))
-            print('EXEC-RESULT ' + json.dumps({'index': idx, 'digest': res['digest'], 'harness': res.get('harness'), 'optimize': sys.flags.optimize,
+            print('EXEC-RESULT ' + json.dumps({'index': idx, 'digest': res['digest'], 'harness': res.get('harness'), 'optimize': sys.flags.optimize, 'env_digests': res.get('env_digests'),
                                                'violations': [{'property': v['property'], 'oracle': v['oracle'], 'detail': v.get('detail', '')[:2000]}
                                                               for v in res['violations']]}), flush=True)
         return 0
